@@ -1,2 +1,435 @@
-/-! stub: replaced by the Agents group driver -/
-def main : IO Unit := pure ()
+import MesaModel.Model.Activation
+import MesaModel.Model.AgentSet
+/-!
+Line-protocol driver of the `agents` group (C02, C03, C04).  One output line per input line.
+Producers: harness/agents_common.py (world scenarios), harness/c03.py (aset scenarios).
+
+World scenarios (registry + weak sets + activations; C02, C04)
+  scenario world
+  model <script>                         new Model whose `random` follows the draw script (`-` = empty)
+  create m ty h x                        Agent subclass `ty` in model m; h=1: the program keeps a reference
+  createn m ty h n s:<x> | l:<x1,..,xn>  Agent.create_agents(m, n, x)  (scalar / per-agent argument)
+  remove a | removeall m | unhold a
+  shuffle <tgt> | sort <tgt> asc|desc    in place
+  mkset m a b c …                        AgentSet([...], random=model_m.random)
+  script a <act> ; <act> …               act: rmself | rm b | create m ty n h | unhold b
+  do|shuffledo|map <tgt> <arg> str|fn
+  gdo|gmap <tgt> ty|mod2|mod3 <arg> str|fn
+  <tgt> = all:m | type:m:ty | set:k
+Every answer is `ok <result> || <dump of all registries, sets and live agents>`.
+
+AgentSet scenarios (C03): see `asetLine`.
+-/
+open Mesa Mesa.Agents
+
+def words (s : String) : List String := (s.splitOn " ").filter (· ≠ "")
+
+def joinNat (sep : String) (l : List Nat) : String := sep.intercalate (l.map toString)
+def joinInt (sep : String) (l : List Int) : String := sep.intercalate (l.map toString)
+
+def parseNats (s : String) : Option (List Nat) :=
+  if s = "-" then some [] else (s.splitOn ",").mapM (·.toNat?)
+
+def parseInts (s : String) : Option (List Int) :=
+  if s = "-" then some [] else (s.splitOn ",").mapM (·.toInt?)
+
+def parseBool (s : String) : Option Bool :=
+  if s = "1" then some true else if s = "0" then some false else none
+
+/-! ## world -/
+
+def parseTarget (s : String) : Option Target :=
+  match s.splitOn ":" with
+  | ["all", m] => do pure (.all (← m.toNat?))
+  | ["type", m, ty] => do pure (.byType (← m.toNat?) (← ty.toNat?))
+  | ["set", k] => do pure (.set (← k.toNat?))
+  | _ => none
+
+def parseAction : List String → Option Action
+  | ["rmself"] => some .rmSelf
+  | ["rm", b] => do pure (.rm (← b.toNat?))
+  | ["create", m, ty, n, h] => do pure (.create (← m.toNat?) (← ty.toNat?) (← n.toNat?) (← parseBool h))
+  | ["unhold", b] => do pure (.unhold (← b.toNat?))
+  | _ => none
+
+def parseScript (rest : List String) : Option (List Action) :=
+  let parts := ((String.intercalate " " rest).splitOn ";").map words |>.filter (· ≠ [])
+  parts.mapM parseAction
+
+def dumpReg (w : World) (m : Nat) (r : Reg) : String :=
+  let a := ",".intercalate ((members w (.all m)).map fun a => s!"{a}:{uidOf w a}")
+  let t := ",".intercalate (r.byType.map fun (ty, _) => s!"{ty}:{joinNat "." (members w (.byType m ty))}")
+  let k := joinNat "," (r.byType.map (·.1))
+  s!"M{m} A={a} T={t} K={k}"
+
+def dumpWorld (w : World) : String :=
+  let ms := (w.regs.zipIdx.map fun (r, m) => dumpReg w m r)
+  let ss := (List.range w.sets.length).map fun k => s!"S{k}={joinNat "," (members w (.set k))}"
+  let live := (List.range w.info.length).filter (alive w)
+  " | ".intercalate (ms ++ ss ++ [s!"live={joinNat "," live}"])
+
+def fmtLog (l : List (Aid × Nat)) : String := ",".intercalate (l.map fun (a, x) => s!"{a}@{x}")
+
+structure WSt where
+  w : World
+  scripts : List (Aid × List Action)
+
+def WSt.script (st : WSt) (a : Aid) : List Action := (st.scripts.lookup a).getD []
+
+def retFn (a : Aid) (arg : Nat) : Nat := a * 100 + arg
+
+def keyFn (w : World) (k : String) : Option (Aid → Nat) :=
+  if k = "ty" then some (GroupKey.ty.eval w) else if k = "mod2" then some ((GroupKey.uidMod 2).eval w)
+  else if k = "mod3" then some ((GroupKey.uidMod 3).eval w) else none
+
+def okW (w : World) (res : String) : String :=
+  if res = "" then s!"ok || {dumpWorld w}" else s!"ok {res} || {dumpWorld w}"
+
+/-- check that a target denotes something; `err Key` for a missing class, `bad-op` otherwise -/
+def checkTarget (w : World) (t : Target) : Option String :=
+  if t.exists? w then none else
+    match t with
+    | .byType m _ => if m < w.regs.length then some "err Key" else some "bad-op"
+    | _ => some "bad-op"
+
+def worldLine (st : WSt) (ws : List String) : WSt × String :=
+  let w := st.w
+  let bad := (st, "bad-op")
+  match ws with
+  | ["model", s] =>
+    match parseNats s with
+    | some sc => let w' := newModel w ⟨sc⟩; ({ st with w := w' }, okW w' s!"m={w.regs.length}")
+    | none => bad
+  | ["create", m, ty, h, x] =>
+    match m.toNat?, ty.toNat?, parseBool h, x.toInt? with
+    | some m, some ty, some h, some x =>
+      if m < w.regs.length then
+        let w' := createAgent w m ty h x
+        ({ st with w := w' }, okW w' s!"new={w.info.length}:{uidOf w' w.info.length}:{x}")
+      else bad
+    | _, _, _, _ => bad
+  | ["createn", m, ty, h, n, xs] =>
+    match m.toNat?, ty.toNat?, parseBool h, n.toNat? with
+    | some m, some ty, some h, some n =>
+      let xl : Option (List Int) :=
+        match xs.splitOn ":" with
+        | ["s", v] => v.toInt?.map (List.replicate n)
+        | ["l", vs] => match parseInts vs with | some l => if l.length = n then some l else none | none => none
+        | _ => none
+      match xl with
+      | some xl =>
+        if m < w.regs.length then
+          let w' := createN w m ty h xl
+          let news := (List.range' w.info.length n).map fun a =>
+            s!"{a}:{uidOf w' a}:{(w'.info[a]?.map (·.x)).getD 0}"
+          ({ st with w := w' }, okW w' s!"new={",".intercalate news}")
+        else bad
+      | none => bad
+    | _, _, _, _ => bad
+  | ["remove", a] =>
+    match a.toNat? with
+    | some a => let w' := removeAgent w a; ({ st with w := w' }, okW w' "")   -- unknown agent: nothing to call
+    | none => bad
+  | ["removeall", m] =>
+    match m.toNat? with
+    | some m => if m < w.regs.length then let w' := removeAll w m; ({ st with w := w' }, okW w' "") else bad
+    | none => bad
+  | ["unhold", a] =>
+    match a.toNat? with
+    | some a => let w' := unhold w a; ({ st with w := w' }, okW w' "")
+    | none => bad
+  | ["shuffle", t] =>
+    match parseTarget t with
+    | some t =>
+      match checkTarget w t with
+      | some e => (st, e)
+      | none => let w' := shuffleInPlace w t; ({ st with w := w' }, okW w' "")
+    | none => bad
+  | ["sort", t, dir] =>
+    match parseTarget t, (if dir = "asc" then some true else if dir = "desc" then some false else none) with
+    | some t, some asc =>
+      match checkTarget w t with
+      | some e => (st, e)
+      | none => let w' := sortInPlace w t asc; ({ st with w := w' }, okW w' "")
+    | _, _ => bad
+  | "mkset" :: m :: rest =>
+    match m.toNat?, rest.mapM (·.toNat?) with
+    | some m, some l =>
+      if m < w.regs.length then let w' := mkSet w m l; ({ st with w := w' }, okW w' s!"set={w.sets.length}") else bad
+    | _, _ => bad
+  | "script" :: a :: rest =>
+    match a.toNat?, parseScript rest with
+    | some a, some acts => ({ st with scripts := (a, acts) :: st.scripts }, "ok")
+    | _, _ => bad
+  | [op, t, arg, how] =>
+    if how ≠ "str" && how ≠ "fn" then bad else
+    match parseTarget t, arg.toNat? with
+    | some t, some arg =>
+      match checkTarget w t with
+      | some e => (st, e)
+      | none =>
+        let n0 := w.log.length
+        if op = "do" then
+          let w' := doSet st.script arg w t
+          ({ st with w := w' }, okW w' s!"log={fmtLog (w'.log.drop n0)}")
+        else if op = "shuffledo" then
+          let w' := shuffleDo st.script arg w t
+          ({ st with w := w' }, okW w' s!"log={fmtLog (w'.log.drop n0)}")
+        else if op = "map" then
+          let (w', rs) := mapSet st.script arg retFn w t
+          ({ st with w := w' }, okW w' s!"log={fmtLog (w'.log.drop n0)} res={joinNat "," rs}")
+        else bad
+    | _, _ => bad
+  | [op, t, key, arg, how] =>
+    if how ≠ "str" && how ≠ "fn" then bad else
+    match parseTarget t, keyFn w key, arg.toNat? with
+    | some t, some key, some arg =>
+      match checkTarget w t with
+      | some e => (st, e)
+      | none =>
+        let n0 := w.log.length
+        if op = "gdo" then
+          let w' := groupDo st.script arg key w t
+          ({ st with w := w' }, okW w' s!"log={fmtLog (w'.log.drop n0)}")
+        else if op = "gmap" then
+          let (w', rs) := groupMap st.script arg retFn key w t
+          let r := ";".intercalate (rs.map fun (k, l) => s!"{k}:{joinNat "." l}")
+          ({ st with w := w' }, okW w' s!"log={fmtLog (w'.log.drop n0)} res={r}")
+        else bad
+    | _, _, _ => bad
+  | _ => bad
+
+/-! ## aset -/
+open Mesa.ASet in
+def parsePred (s : String) : Option (Option Pred) :=
+  match s.splitOn ":" with
+  | ["-"] => some none
+  | ["lt", k, v] => do pure (some (.lt (← k.toNat?) (← v.toInt?)))
+  | ["ge", k, v] => do pure (some (.ge (← k.toNat?) (← v.toInt?)))
+  | ["eq", k, v] => do pure (some (.eq (← k.toNat?) (← v.toInt?)))
+  | ["has", k] => do pure (some (.has (← k.toNat?)))
+  | ["odd"] => some (some .oddUid)
+  | _ => none
+
+open Mesa.ASet in
+def parseKey (s : String) : Option Key :=
+  match s.splitOn ":" with
+  | ["attr", k] => do pure (.attr (← k.toNat?))
+  | ["mod", k, m] => do
+    let m ← m.toNat?
+    if m = 0 then none else pure (.modAttr (← k.toNat?) m)
+  | ["neg", k] => do pure (.negAttr (← k.toNat?))
+  | ["ty"] => some .ty
+  | ["uid"] => some .uid
+  | _ => none
+
+/-- `int(n * (p / q))` on IEEE doubles, exactly as `AgentSet.select` computes it for a float
+    `at_most = p / q` (trusted glue: Lean `Float` = C `double`) -/
+def fracCount (n p q : Nat) : Nat :=
+  (Float.floor (Float.ofNat n * (Float.ofNat p / Float.ofNat q))).toUInt64.toNat
+
+open Mesa.ASet in
+def parseAtMost (n : Nat) (s : String) : Option AtMost :=
+  match s.splitOn ":" with
+  | ["inf"] => some .inf
+  | ["n", k] => do pure (.count (← k.toNat?))
+  | ["f", p, q] => do
+    let p ← p.toNat?
+    let q ← q.toNat?
+    if q = 0 || p > q then none else pure (.count (fracCount n p q))
+  | _ => none
+
+open Mesa.ASet in
+def fmtErr : Err → String
+  | .attr => "err Attr" | .key => "err Key" | .index => "err Index" | .value => "err Value"
+
+def fmtOptInt : Option Int → String
+  | some v => toString v | none => "None"
+
+open Mesa.ASet in
+def dumpStore (st : Store) : String :=
+  let ss := "|".intercalate (st.sets.zipIdx.map fun (l, k) => s!"S{k}={joinNat "," l}")
+  let ags := " ".intercalate (st.pop.map fun a =>
+    s!"{a.id}:{fmtOptInt (a.attr 0)}/{fmtOptInt (a.attr 1)}/{fmtOptInt (a.attr 2)}")
+  s!"{ss} || {ags}"
+
+open Mesa.ASet in
+def okS (st : Store) (res : String) : String := s!"ok {res} || {dumpStore st}"
+
+open Mesa.ASet in
+def asetLine (st : Store) (ws : List String) : Store × String :=
+  let bad := (st, "bad-op")
+  let nsets := st.sets.length
+  let npop := st.pop.length
+  match ws with
+  | ["rng", s] =>
+    match parseNats s with
+    | some sc => ({ st with rng := ⟨sc⟩ }, "ok")
+    | none => bad
+  | ["agent", ty, x, y] =>
+    match ty.toNat?, x.toInt?, (if y = "-" then some none else y.toInt?.map some) with
+    | some ty, some x, some y =>
+      let attrs := (0, x) :: (match y with | some y => [(1, y)] | none => [])
+      let st' := { st with pop := st.pop ++ [{ id := npop, ty := ty, attrs := attrs }] }
+      (st', okS st' s!"id={npop}")
+    | _, _, _ => bad
+  | "mk" :: ids =>
+    match ids.mapM (·.toNat?) with
+    | some ids =>
+      if ids.all (· < npop) then let (st', k) := mk st ids; (st', okS st' s!"set={k}") else bad
+    | none => bad
+  | ["select", s, pred, ty, am, inpl] =>
+    match s.toNat?, parsePred pred, (if ty = "-" then some none else ty.toNat?.map some), parseBool inpl with
+    | some s, some pred, some ty, some inpl =>
+      if s < nsets then
+        match parseAtMost (len st s) am with
+        | some am => let (st', k) := select st s pred ty am inpl; (st', okS st' s!"set={k}")
+        | none => bad
+      else bad
+    | _, _, _, _ => bad
+  | ["sort", s, key, dir, inpl] =>
+    match s.toNat?, parseKey key, (if dir = "asc" then some true else if dir = "desc" then some false else none), parseBool inpl with
+    | some s, some key, some asc, some inpl =>
+      if s < nsets then
+        match sort st s key asc inpl with
+        | .ok (st', k) => (st', okS st' s!"set={k}")
+        | .error e => (st, fmtErr e)
+      else bad
+    | _, _, _, _ => bad
+  | ["shuffle", s, inpl] =>
+    match s.toNat?, parseBool inpl with
+    | some s, some inpl =>
+      if s < nsets then let (st', k) := shuffle st s inpl; (st', okS st' s!"set={k}") else bad
+    | _, _ => bad
+  | ["group", s, key, kind] =>
+    match s.toNat?, parseKey key, (if kind = "sets" then some true else if kind = "list" then some false else none) with
+    | some s, some key, some asSets =>
+      if s < nsets then
+        match group st s key asSets with
+        | .ok (st', gs) =>
+          let g := ";".intercalate (gs.map fun (k, l) => s!"{k}:{joinNat "." l}")
+          let c := ";".intercalate (gs.map fun (k, l) => s!"{k}:{l.length}")
+          let sm := ";".intercalate (gs.map fun (k, l) =>
+            s!"{k}:{(l.map fun i => ((st.agent i).attr 0).getD 0).sum}")
+          (st', okS st' s!"groups={g} counts={c} sums={sm} n={gs.length}")
+        | .error e => (st, fmtErr e)
+      else bad
+    | _, _, _ => bad
+  | ["get", s, ks, mode] =>
+    let ksP : Option (Bool × List Nat) :=
+      match ks.splitOn ":" with
+      | ["one", k] => k.toNat?.map fun k => (true, [k])
+      | ["many", l] => (parseNats l).map fun l => (false, l)
+      | _ => none
+    let modeP : Option Missing :=
+      match mode.splitOn ":" with
+      | ["error"] => some .error
+      | ["default", "None"] => some (.default none)
+      | ["default", v] => v.toInt?.map fun v => .default (some v)
+      | ["bogus"] => some .bogus
+      | _ => none
+    match s.toNat?, ksP, modeP with
+    | some s, some (one, ks), some mode =>
+      if s < nsets then
+        match get st s ks mode with
+        | .ok rows =>
+          let r := if one then ",".intercalate (rows.map fun r => "/".intercalate (r.map fmtOptInt))
+                   else ",".intercalate (rows.map fun r => "[" ++ "/".intercalate (r.map fmtOptInt) ++ "]")
+          (st, okS st s!"vals={r}")
+        | .error e => (st, fmtErr e)
+      else bad
+    | _, _, _ => bad
+  | ["setattr", s, k, v] =>
+    match s.toNat?, k.toNat?, v.toInt? with
+    | some s, some k, some v =>
+      if s < nsets then let st' := setAttr st s k v; (st', okS st' "set") else bad
+    | _, _, _ => bad
+  | ["agg", s, k, f] =>
+    let fP : Option AggFn :=
+      if f = "sum" then some .sum else if f = "min" then some .min else if f = "max" then some .max
+      else if f = "len" then some .len else none
+    match s.toNat?, k.toNat?, fP with
+    | some s, some k, some f =>
+      if s < nsets then
+        match agg st s k f with
+        | .ok v => (st, okS st s!"val={v}")
+        | .error e => (st, fmtErr e)
+      else bad
+    | _, _, _ => bad
+  | ["map", s, f] =>
+    let fP : Option MapFn :=
+      match f.splitOn ":" with
+      | ["dbl", k] => k.toNat?.map .dbl
+      | ["plus", k, d] => do pure (.plus (← k.toNat?) (← d.toInt?))
+      | ["nosuch"] => some .nosuch
+      | _ => none
+    match s.toNat?, fP with
+    | some s, some f =>
+      if s < nsets then
+        match map st s f with
+        | .ok vs => (st, okS st s!"vals={joinInt "," vs}")
+        | .error e => (st, fmtErr e)
+      else bad
+    | _, _ => bad
+  | ["item", s, i] =>
+    match s.toNat?, i.toInt? with
+    | some s, some i =>
+      if s < nsets then
+        match item st s i with
+        | .ok a => (st, okS st s!"item={a}")
+        | .error e => (st, fmtErr e)
+      else bad
+    | _, _ => bad
+  | ["slice", s, i, j] =>
+    match s.toNat?, i.toInt?, j.toInt? with
+    | some s, some i, some j =>
+      if s < nsets then (st, okS st s!"items={joinNat "," (slice st s i j)}") else bad
+    | _, _, _ => bad
+  | [op, s, a] =>
+    match s.toNat?, a.toNat? with
+    | some s, some a =>
+      if s < nsets && a < npop then
+        if op = "add" then let st' := add st s a; (st', okS st' "added")
+        else if op = "discard" then let st' := discard st s a; (st', okS st' "discarded")
+        else if op = "remove" then
+          match remove st s a with
+          | .ok st' => (st', okS st' "removed")
+          | .error e => (st, fmtErr e)
+        else if op = "contains" then (st, okS st s!"in={if contains st s a then 1 else 0}")
+        else bad
+      else bad
+    | _, _ => bad
+  | ["len", s] =>
+    match s.toNat? with
+    | some s => if s < nsets then (st, okS st s!"len={len st s}") else bad
+    | none => bad
+  | _ => bad
+
+/-! ## main loop -/
+
+inductive DSt where
+  | none
+  | world (st : WSt)
+  | aset (st : Mesa.ASet.Store)
+
+def stepLine (d : DSt) (ws : List String) : DSt × String :=
+  match ws with
+  | ["scenario", "world"] => (.world { w := World.empty, scripts := [] }, "ok")
+  | ["scenario", "aset"] => (.aset { pop := [], sets := [], rng := ⟨[]⟩ }, "ok")
+  | _ =>
+    match d with
+    | .none => (d, "bad-op")
+    | .world st => let (st', o) := worldLine st ws; (.world st', o)
+    | .aset st => let (st', o) := asetLine st ws; (.aset st', o)
+
+partial def loop (h : IO.FS.Stream) (out : IO.FS.Stream) (d : DSt) : IO Unit := do
+  let line ← h.getLine
+  if line.isEmpty then return ()
+  let (d', o) := stepLine d (words line.trimAscii.toString)
+  out.putStrLn o
+  loop h out d'
+
+def main : IO Unit := do
+  let out ← IO.getStdout
+  loop (← IO.getStdin) out .none
+  out.flush
